@@ -376,7 +376,7 @@ def addr_bytes(a, w):
     return [(a >> (8 * i)) & 255 for i in range(w // 8)]
 
 
-def gen_stream(rng, w, run_mode=False, lo_addr=0, hi_addr=None):
+def gen_stream(rng, w, run_mode=False, lo_addr=0, hi_addr=None, cycle=False):
     """returns (bytes, words, tags); words = jump words holding the packed bytes the stream refers to"""
     wv = w or 16
     ww = wv.bit_length() - 1
@@ -428,6 +428,50 @@ def gen_stream(rng, w, run_mode=False, lo_addr=0, hi_addr=None):
         else:
             state.update(W=W, H=H, ps=ps)
         return [1] + u16(W) + u16(H) + [bpp] + u16(ps)
+
+    def fill_vals(a, vals):
+        for k, b in enumerate(vals):
+            wa = ((a + k * dw) >> ww) + 1
+            words[wa] = ((rng.randrange(1 << wv) & ~(255 << dbit)) | (b << dbit)) & ((1 << wv) - 1)
+
+    if cycle:
+        # palette cycling / fades: the same pixel indices presented again and again while only the palette changes
+        # (set_palette between the presents, or a re-init that resets palette and pixels)
+        W, H = rng.choice([1, 2, 3, 4, 6]), rng.choice([1, 2, 3, 4])
+        bpp, ps = rng.choice([4, 8]), rng.choice([2, 3, 4, 8, 16])
+        rounds = rng.choice([2, 2, 3, 4, 5])
+        base = addr(W * H + rounds * 3 * ps + 2)
+        base -= base % dw if rng.random() < 0.8 else 0
+        fb = base
+        pix = [min(rng.randrange(ps + (1 if rng.random() < 0.3 else 0)), (1 << bpp) - 1) for _ in range(W * H)]   # ps itself: black
+        fill_vals(fb, pix)
+        out += [1] + u16(W) + u16(H) + [bpp] + u16(ps)
+        tags.add('palette-cycle')
+        zero_first = rng.random() < 0.25
+        if zero_first:                                          # the all-zero frame of a fresh init, presented by an empty rectangle
+            pal0 = base + (W * H) * dw
+            fill_vals(pal0, [rng.randrange(1, 256) for _ in range(3 * ps)])
+            out += [2] + addr_bytes(pal0, wv)
+            out += [4] + u16(0) + u16(0) + u16(0) + u16(0) + addr_bytes(fb, wv)
+            out += [1] + u16(W) + u16(H) + [bpp] + u16(ps)       # re-init: palette back to black, pixels back to 0
+            out += [4] + u16(rng.randrange(W + 1)) + u16(rng.randrange(H + 1)) + u16(0) + u16(0) + addr_bytes(fb, wv)
+            tags.add('reinit-then-present')
+        for k in range(rounds):
+            pal = base + (W * H + k * 3 * ps) * dw
+            fill_vals(pal, [rng.randrange(256) for _ in range(3 * ps)])
+            out += [2] + addr_bytes(pal, wv)
+            r = rng.random()
+            if k == 0 or r < 0.45:
+                out += [3] + addr_bytes(fb, wv)
+            elif r < 0.75:
+                x, y = rng.randrange(W + 1), rng.randrange(H + 1)
+                rw, rh = rng.randrange(W - x + 1), rng.randrange(H - y + 1)
+                out += [4] + u16(x) + u16(y) + u16(rw) + u16(rh) + addr_bytes(fb, wv)
+            else:
+                out += [5] + [p | (rng.randrange(16) << bpp if bpp == 4 else 0) for p in pix]
+        if w is None:
+            tags.add('no-memory')
+        return out, words, sorted(tags)
 
     ncmd = rng.choice([1, 2, 3, 4, 6, 8, 12])
     bad_at = rng.randrange(ncmd) if rng.random() < 0.5 else None
@@ -490,7 +534,7 @@ def gen_stream_cases(ctx, n):
     for _ in range(n):
         r = rng.random()
         w = None if r < 0.08 else (8 if r < 0.11 else rng.choice([16, 32, 64]))
-        bs, words, tags = gen_stream(rng, w)
+        bs, words, tags = gen_stream(rng, w, cycle=w in (16, 32, 64) and rng.random() < 0.15)
         cases.append({'kind': 'stream', 'w': w, 'words': sorted(words.items()) if w else [], 'bytes': bs, 'tags': tags})
     return cases
 
@@ -510,6 +554,7 @@ def gen_run_groups(ctx, n):
         max_code_words = 1400 if w == 16 else 3000
         place = rng.choice(['after-code', 'page-edge', 'far']) if w > 16 else 'after-code'
         bs, words, tags = None, None, None
+        cyc = rng.random() < 0.4
         for _ in range(10):
             if place == 'after-code':
                 data_start = max_code_words + rng.choice([0, 2, 100])
@@ -520,7 +565,7 @@ def gen_run_groups(ctx, n):
             lo, hi = data_start << ww, (data_start + data_len - 2) << ww
             if hi >= (1 << w):
                 continue
-            b, wd, tg = gen_stream(rng, w, run_mode=True, lo_addr=lo, hi_addr=hi)
+            b, wd, tg = gen_stream(rng, w, run_mode=True, lo_addr=lo, hi_addr=hi, cycle=cyc)
             if 2 * (8 * len(b) + 3) <= max_code_words and all(data_start <= a < data_start + data_len for a in wd):
                 bs, words, tags = b, wd, tg
                 break
@@ -557,9 +602,9 @@ def coq_scase(c, r):
     else:
         # the words of the data segment (the code words are never a buffer; a read of one would show as a mismatch)
         memt = f'(Some ({c["w"].bit_length() - 1}, {fw.npairs(ec.case_words(dict(c, segs=c["segs"][1:])))}))'
-    frames = '[' + ';'.join(f'({fw.nlist(p)},{coq_rgbs(pal)})' for p, pal in r['frames']) + ']'
+    frames = '[' + ';'.join(f'({fw.nlist(f[0])},{coq_rgbs(f[1])},{fw.nlist(f[2])})' for f in r['frames']) + ']'
     return (f'mkscase {memt} {fw.nlist(c["bytes"])} {r["err"]} {frames} {fw.nlist(r["pix"])} {coq_rgbs(r["pal"])} '
-            f'{fw.nlist(r["geom"])}')
+            f'{fw.nlist(r["rgb"])} {fw.nlist(r["geom"])}')
 
 
 def screen_spec_problems(c, r):
@@ -567,12 +612,19 @@ def screen_spec_problems(c, r):
     out = []
     if r['err'] == 2 and c.get('w') in (None, 16, 32, 64):
         out.append(('non-device-exception', f'the screen raised {r.get("exc")} (not an IODeviceException) on a command stream'))
-    hs = [hashlib.sha256(bytes(p) + b''.join(bytes(col) for col in pal)).hexdigest() for p, pal in r['frames']]
+    hs = [hashlib.sha256(bytes(f[0]) + b''.join(bytes(col) for col in f[1])).hexdigest() for f in r['frames']]
     if hs != r['hashes'] or r['frame_count'] != len(r['frames']):
         out.append(('frame-hash', f'frame_hashes/frame_count do not describe the presented frames: {len(r["hashes"])} hashes, '
                                   f'frame_count={r["frame_count"]}, {len(r["frames"])} presents observed'))
     if r['frames'] and r['rgb_len'] != len(r['frames'][-1][0]) and r['err'] == 0:
         out.append(('rgb-frame-size', 'last_frame_rgb does not have one entry per pixel'))
+    # the PNG written at each present (frames_dir) must hold that present's expanded frame
+    want = [[f[3], f[4], f[2]] for f in r['frames']]
+    if r.get('pngs') != want or r.get('png_names', []) != [f'frame_{i:06d}.png' for i in range(len(want))]:
+        k = next((i for i, (a, b) in enumerate(zip(r.get('pngs', []), want)) if a != b), min(len(r.get('pngs', [])), len(want)))
+        out.append(('png-frame', f'the PNG files of frames_dir do not hold the presented RGB frames (first difference at present {k}: '
+                                 f'{str(r["pngs"][k])[:120] if k < len(r.get("pngs", [])) else "missing"} vs width/height/last_frame_rgb '
+                                 f'{str(want[k])[:120] if k < len(want) else "none"})'))
     return out
 
 
@@ -593,13 +645,15 @@ def evaluate_screen(ctx, cases, results, name='c19scr'):
         if ok is False:
             rc, model = fw.coq_eval_term(ctx, f'{name}_diag{i}', HEADER,
                                          f'let r := decode (case_view ({terms[i]})) sinit {fw.nlist(c["bytes"])} in '
-                                         f'(err_code (snd r), rev (s_frames (fst r)), s_pix (fst r), s_palette (fst r))')
+                                         f'(err_code (snd r), map (fun f => (fst f, map rgb_code (snd f))) (rev (s_frames (fst r))), '
+                                         f's_pix (fst r), s_palette (fst r), map rgb_code (s_rgb (fst r)))')
             rep['model'] = model
             problems.append({'genuine': True,
                              'sig': {'kind': 'screen-decoding-differs', 'w': c['w'], 'engine': c.get('engine'),
                                      'err': r['err']},
                              'what': f'w={c["w"]} {c.get("engine") or "dict-backed memory"}: stream {c["bytes"][:24]}... presented '
-                                     f'{len(r["frames"])} frame(s), err={r["err"]} {r.get("exc", "")}, final pixels {r["pix"][:16]}; the documented '
+                                     f'{len(r["frames"])} frame(s), err={r["err"]} {r.get("exc", "")}, final pixels {r["pix"][:16]}, last_frame_rgb '
+                                     f'{[hex(x) for x in r["rgb"][:8]]}; the documented '
                                      f'layout (Screen.v) requires {model[-300:]}', 'replay': rep})
     return problems
 
@@ -607,7 +661,7 @@ def evaluate_screen(ctx, cases, results, name='c19scr'):
 def evaluate_run_groups(groups, results):
     problems = []
     for vs, rs in zip(groups, results):
-        obs = [json.dumps([r.get(k) for k in ('err', 'frames', 'hashes', 'pix', 'pal', 'geom', 'cause', 'ops')]) for r in rs]
+        obs = [json.dumps([r.get(k) for k in ('err', 'frames', 'hashes', 'pix', 'pal', 'rgb', 'pngs', 'geom', 'cause', 'ops')]) for r in rs]
         if len(set(obs)) > 1:
             j = next(k for k in range(len(obs)) if obs[k] != obs[0])
             problems.append({'genuine': True, 'sig': {'kind': 'screen-frames-differ-between-engines', 'w': vs[0]['w'],
@@ -691,6 +745,9 @@ def run(ctx):
             ctx.hist('screen_tags', t)
         if c['kind'] == 'run':
             ctx.hist('screen_run_storage', f"{c['engine']}:{r.get('storage')}")
+        pairs = sum(1 for a, b in zip(r['frames'], r['frames'][1:]) if a[0] == b[0] and a[1] != b[1] and a[2] != b[2])
+        if pairs:
+            ctx.hist('screen_same_indices_new_palette_pairs', f"w{c['w']}:{c.get('engine') or 'stream'}", pairs)
     report(ctx, evaluate_screen(ctx, scases + rcases, sres))
     rres, k = [], len(scases)
     for g in rgroups:
@@ -713,16 +770,20 @@ def run(ctx):
         '{4,8}, zero size, rectangle out of bounds, raw/update before init, no memory, truncated) x w in {16,32,64} (+ none, + a few '
         'w=8) fed to the real InMemoryScreen over a dict-backed DeviceMemory, and programs emitting such streams run on the five '
         'engine configurations with the buffers in a data segment after the code / across a page edge / far away; observables: '
-        'a snapshot at every present, frame_hashes, final pixel_indices/palette/geometry, exception class; compared with '
+        'a snapshot (pixel_indices, palette, last_frame_rgb) at every present, frame_hashes, the PNG written per present, final '
+        'pixel_indices/palette/last_frame_rgb/geometry, exception class; 15% of the streams (40% of the programs) are palette '
+        'cycles: the same indices presented repeatedly with set_palette / re-init in between; compared with '
         'Model/Screen.v in Coq.  non-trivial = the device performed at least one access / the stream produced a frame or an error')
     ctx.assumptions += [
-        'the pygame window (pygame_window.py) is out of scope: pygame is not installed; PNG encoding (frames_dir) is not checked',
+        'the pygame window (pygame_window.py) is out of scope: pygame is not installed; the PNG files of frames_dir are decoded by '
+        'the harness and compared with the last_frame_rgb snapshot of the same present (the PNG encoder itself is not modelled in Coq)',
         'the engines are tied to the machine definition by C01/C07; here the interleaving of device accesses is tied by this campaign',
         'out-of-segment device accesses differ between the two adapters by design; they are compared with the per-adapter model and '
         'within one adapter across storage modes, not across adapters',
         'screen sizes in the campaign are at most 12x10 pixels (a 65535x65535 init_screen allocates 4G list entries: resource '
         'exhaustion is not modelled); in the run-mode screen cases the program only flips the output bits (word 2), which no buffer uses',
         'frame_hashes: the sha256 of each observed (pixel_indices, palette) snapshot is recomputed by the harness and compared',
+        'last_frame_rgb is compared with Screen.v (expand: palette[index], black beyond the palette) after every present',
     ]
 
 
